@@ -640,14 +640,16 @@ def spawn_layer_in_subprocess(result, script_parts, options, features,
             # we need to do it on a separate line. Also, in python 3 this
             # returns bytes, so we decode it.
             next_fail = next(erriter)
-            failures.append((next_fail.strip().decode(), None))
+            next_fail = next_fail.strip().decode('utf-8', 'replace')
+            failures.append((next_fail, None))
         while nerr > 0:
             nerr -= 1
             # Doing erriter.next().strip() confuses the 2to3 fixer, so
             # we need to do it on a separate line. Also, in python 3 this
             # returns bytes, so we decode it.
             next_err = next(erriter)
-            errors.append((next_err.strip().decode(), None))
+            next_err = next_err.strip().decode('utf-8', 'replace')
+            errors.append((next_err, None))
 
     finally:
         result.done = True
